@@ -1,8 +1,12 @@
 package main
 
 import (
+	"encoding/json"
 	"fmt"
 	"os"
+	"path/filepath"
+	"regexp"
+	"sort"
 	"runtime/debug"
 	"strings"
 	"time"
@@ -33,8 +37,10 @@ func main() {
 					mode = mode[:j]
 				}
 			}
-			if err := discoverGuards(p, n, mode, track); err != nil {
-				fmt.Println("ERR", err)
+			for _, n1 := range expandNames(p, n) {
+				if err := discoverGuards(p, n1, mode, track); err != nil {
+					fmt.Println("ERR", err)
+				}
 			}
 		}
 	case "events":
@@ -46,6 +52,13 @@ func main() {
 		if err := discoverEvents(p, os.Args[2], os.Args[3:]); err != nil {
 			fmt.Println("ERR", err)
 		}
+	case "props":
+		m := map[string]string{}
+		for id, d := range props {
+			m[id] = d.explanation
+		}
+		b, _ := json.MarshalIndent(m, "", " ")
+		fmt.Println(string(b))
 	case "check":
 		os.Exit(runCheck(os.Args[2:]))
 	case "probe":
@@ -100,4 +113,47 @@ func runCheck(args []string) int {
 		d.run(p, r)
 	}()
 	return r.finish(d.explanation, append(append([]string{}, commonAssumptions...), d.assumptions...))
+}
+
+// expandNames expands "pkg.~regex" to all functions/methods of the package whose
+// name (Func or (*T).M / (T).M) matches the regex.
+func expandNames(p *Program, n string) []string {
+	var fileSel string
+	if j := strings.Index(n, ".file="); j >= 0 {
+		fileSel = n[j+6:]
+		n = n[:j] + ".~."
+	}
+	i := strings.Index(n, ".~")
+	if i < 0 {
+		return []string{n}
+	}
+	path, re := n[:i], regexp.MustCompile(n[i+2:])
+	pp := p.progFor(path)
+	sp := pp.SSAPkgs[path]
+	if sp == nil {
+		return []string{n}
+	}
+	set := map[string]bool{}
+	for fn := range allFuncs(pp) {
+		if fn.Pkg != sp || fn.Parent() != nil || fn.Synthetic != "" || fn.Blocks == nil {
+			continue
+		}
+		if fileSel != "" && filepath.Base(p.Fset.Position(fn.Pos()).Filename) != fileSel {
+			continue
+		}
+		if fn.Name() == "init" || strings.HasPrefix(fn.Name(), "init#") {
+			continue
+		}
+		full := fullFuncName(fn)
+		local := strings.TrimPrefix(full, path+".")
+		if re.MatchString(local) {
+			set[full] = true
+		}
+	}
+	var out []string
+	for k := range set {
+		out = append(out, k)
+	}
+	sort.Strings(out)
+	return out
 }
